@@ -117,12 +117,12 @@ theorem repr_options_side_conditions_needed :
 
 /-! ## equality of instances -/
 
-/-- **equality, general form.**  For two instances of one class built from `o₁` and `o₂`, whose
+/-- **equality, in terms of lookups.**  For two instances of one class built from `o₁` and `o₂`, whose
     reported keys `K₁`, `K₂` satisfy the side condition: each `_repr_options` is the restriction of
     its options to its keys, and the instances compare equal exactly when each restricted
     dictionary holds, at every key reported for the *other* instance, a value Python-equal to (here:
     including, in both directions) the other options' value. -/
-theorem eq_iff_restricted {c : DsClass} {o₁ o₂ : V} {i₁ i₂ : Inst} {K₁ K₂ : List Path}
+theorem eq_iff_restricted_lookups {c : DsClass} {o₁ o₂ : V} {i₁ i₂ : Inst} {K₁ K₂ : List Path}
     (h₁ : instantiate c o₁ = .ok i₁) (h₂ : instantiate c o₂ = .ok i₂)
     (hK₁ : classKeys c o₁ = .ok K₁) (hK₂ : classKeys c o₂ = .ok K₂)
     (hP₁ : Present o₁ K₁) (hP₂ : Present o₂ K₂) :
@@ -142,6 +142,39 @@ theorem eq_iff_restricted {c : DsClass} {o₁ o₂ : V} {i₁ i₂ : Inst} {K₁
   simp only [instEq, dictEqv, beq_self_eq_true, Bool.true_and, Bool.and_eq_true]
   rw [le_restricted_iff hP₁ hR₁ spec₁.of_sortKeys, le_restricted_iff hP₂ hR₂ spec₂.of_sortKeys]
 
+/-- **equality.**  Two instances of one class compare equal exactly when the options each was
+    built from, restricted to the keys the class reports for them, are equal as Python
+    dictionaries — for *any* dictionaries `R₁`, `R₂` that are those restrictions (`IsRestrict`: the
+    keys with their values and nothing else; such a dictionary exists by `repr_options_lookup` and
+    is unique up to Python equality by `restrict_unique`). -/
+theorem eq_iff_restricted {c : DsClass} {o₁ o₂ : V} {i₁ i₂ : Inst} {K₁ K₂ : List Path}
+    (h₁ : instantiate c o₁ = .ok i₁) (h₂ : instantiate c o₂ = .ok i₂)
+    (hK₁ : classKeys c o₁ = .ok K₁) (hK₂ : classKeys c o₂ = .ok K₂)
+    (hP₁ : Present o₁ K₁) (hP₂ : Present o₂ K₂) {R₁ R₂ : List (String × V)}
+    (r₁ : IsRestrict o₁ K₁ R₁) (r₂ : IsRestrict o₂ K₂ R₂) :
+    instEq i₁ i₂ = true ↔ dictEqv (.dict R₁) (.dict R₂) = true := by
+  obtain ⟨s₁, s₂, _⟩ := eq_iff_restricted_lookups h₁ h₂ hK₁ hK₂ hP₁ hP₂
+  have u₁ := restrict_unique hP₁ s₁ r₁
+  have u₂ := restrict_unique hP₂ s₂ r₂
+  obtain ⟨_, _, _, _, _, _, rfl⟩ := instantiate_ok h₁
+  obtain ⟨_, _, _, _, _, _, rfl⟩ := instantiate_ok h₂
+  simp only [instEq, beq_self_eq_true, Bool.true_and]
+  constructor
+  · intro h; exact dictEqv_trans (dictEqv_trans (dictEqv_symm u₁) h) u₂
+  · intro h; exact dictEqv_trans (dictEqv_trans u₁ h) (dictEqv_symm u₂)
+
+/-- the restriction of the options to the reported keys is well defined: it exists (the fold
+    builds one) and any two are equal as Python dictionaries -/
+theorem restricted_exists_unique {o : V} {K : List Path} (hK : Present o K) :
+    (∃ R, IsRestrict o K R) ∧
+    ∀ R R', IsRestrict o K R → IsRestrict o K R' → dictEqv (.dict R) (.dict R') = true := by
+  obtain ⟨R, _, spec⟩ := reprOptions_isRestrict hK
+  exact ⟨⟨R, spec⟩, fun _ _ a b => restrict_unique hK a b⟩
+
+example : (∃ R, IsRestrict oXY [["A"], ["A", "X"]] R) ∧ (∃ R, IsRestrict oYX [["A"], ["A", "X"]] R) :=
+  ⟨(restricted_exists_unique (concrete_present (name := "C") cOverlap_keysOK (o := oXY) rfl)).1,
+   (restricted_exists_unique (concrete_present (name := "C") cOverlap_keysOK (o := oYX) rfl)).1⟩
+
 /-- **equality, when each key set lies on or under the other** (in particular when the two key
     sets coincide, and in the prefix-overlap case `K₁ = {A, A.X}`, `K₂ = {A}`): the instances
     compare equal exactly when the two option dictionaries agree (Python `==`) at every reported
@@ -152,7 +185,7 @@ theorem eq_iff_restricted_covering {c : DsClass} {o₁ o₂ : V} {i₁ i₂ : In
     (hP₁ : Present o₁ K₁) (hP₂ : Present o₂ K₂) (hc₁ : Covers K₂ K₁) (hc₂ : Covers K₁ K₂) :
     instEq i₁ i₂ = true ↔
       (∀ k ∈ K₁, LookLe (walk k o₁) (walk k o₂)) ∧ (∀ k ∈ K₂, LookLe (walk k o₂) (walk k o₁)) := by
-  obtain ⟨s₁, s₂, h⟩ := eq_iff_restricted h₁ h₂ hK₁ hK₂ hP₁ hP₂
+  obtain ⟨s₁, s₂, h⟩ := eq_iff_restricted_lookups h₁ h₂ hK₁ hK₂ hP₁ hP₂
   rw [h]
   have e₁ : ∀ k ∈ K₁, walk k (.dict i₂.reprOpts) = walk k o₂ := by
     intro k hk
@@ -210,16 +243,24 @@ example : ∃ i₁ i₂ K, instantiate cOverlap oXY = .ok i₁ ∧ instantiate c
 example : ∃ i₁ i₂, instantiate cOverlap oXY = .ok i₁ ∧ instantiate cOverlap oX9 = .ok i₂ ∧
     instEq i₁ i₂ = false := ⟨_, _, rfl, rfl, by decide⟩
 
-/-- prefix-overlap with different key sets: `{A, A.X}` against `{A}` -/
-example : (classKeys cOverlap oXY).toOption = some [["A"], ["A", "X"]] ∧
-    (classKeys cOverlap (.dict [("A", .dict [])])).toOption = Option.none ∧
-    Covers [["A"]] [["A"], ["A", "X"]] := by
-  refine ⟨by decide, by decide, ?_⟩
-  intro k hk
-  simp at hk
-  rcases hk with rfl | rfl
-  · exact ⟨["A"], by simp, List.prefix_refl _⟩
-  · exact ⟨["A"], by simp, ⟨["X"], rfl⟩⟩
+/-- prefix overlap with *different* key sets: members `Option('A')` and `Option('A.X', 7)`; from
+    `{A: {X: 2}}` the class reports `{A, A.X}`, from `{A: {}}` it reports `{A}`; each set lies on or
+    under the other, so `eq_iff_restricted_covering` applies (and the instances differ) -/
+example : (classKeys cPre (.dict [("A", .dict [("X", .int 2)])])).toOption = some [["A"], ["A", "X"]] ∧
+    (classKeys cPre (.dict [("A", .dict [])])).toOption = some [["A"]] ∧
+    Covers [["A"]] [["A"], ["A", "X"]] ∧ Covers [["A"], ["A", "X"]] [["A"]] ∧
+    (∃ i₁ i₂, instantiate cPre (.dict [("A", .dict [("X", .int 2)])]) = .ok i₁ ∧
+      instantiate cPre (.dict [("A", .dict [])]) = .ok i₂ ∧ instEq i₁ i₂ = false) := by
+  refine ⟨by decide, by decide, ?_, ?_, ⟨_, _, rfl, rfl, by decide⟩⟩
+  · intro k hk
+    simp at hk
+    rcases hk with rfl | rfl
+    · exact ⟨["A"], by simp, List.prefix_refl _⟩
+    · exact ⟨["A"], by simp, ⟨["X"], rfl⟩⟩
+  · intro k hk
+    simp at hk
+    subst hk
+    exact ⟨["A"], by simp, List.prefix_refl _⟩
 
 /-! ## repr -/
 
